@@ -15,7 +15,7 @@ ENV["CARGO_TERM_COLOR"] = "never"
 
 # quick-tier budget multipliers for monitors whose default quick budget is too slow for
 # an every-change check (gates are still met at these scales)
-QUICK_SCALE = {"C13": 0.35, "C14": 0.5}
+QUICK_SCALE = {"C13": 0.35, "C14": 0.5, "C33": 0.6}
 
 QUICK_WATCHDOG_S = 900
 THOROUGH_WATCHDOG_S = 3600
